@@ -34,7 +34,7 @@ func init() {
 			"the happens-before check tracks plain accesses to fields through the method receiver; anything routed through sync/atomic counts as synchronised",
 			"porcupine v1.3.0 is trusted for histories <= 60 operations; the closed-form oracle covers all histories",
 		},
-		ProbeNames: []string{"wrap-inside-run", "rollover-read-concurrent-with-wrap", "porcupine-checked"},
+		ProbeNames: []string{"wrap-inside-run", "rollover-read-concurrent-with-wrap", "porcupine-checked", "warm-up-past-first-wrap"},
 	})
 }
 
@@ -130,6 +130,38 @@ func runC07(c *core.Ctx) {
 			return
 		}
 	}
+	// warm-up (one fixed-start run in eight): issue sequentially, checking every value, until the
+	// concurrent phase starts a few issues before the 2nd or 3rd wrap — state that a sequencer only
+	// has after it has been all the way round (recycled cycles, carried counts) is otherwise never met
+	var baseRoc uint64
+	if !random && !long && c.Config == "direct" && t.Chance(1, 8) {
+		z1 := int(uint16(0 - start)) // index of the first zero-valued issue
+		w := z1 + 65536*(1+t.Intn(2)) - t.Intn(40)
+		bad := false
+		c.Guard("rtp.Sequencer(sequential warm-up)", func() {
+			for i := 0; i < w; i++ {
+				v := sq.NextSequenceNumber()
+				if v == 0 {
+					baseRoc++
+				}
+				if v != start+uint16(i) {
+					c.Violate("values", "C07/values/sequential", "issue %d of a single caller on NewFixedSequencer(%d) returned %d, expected %d", i, start, v, start+uint16(i))
+					bad = true
+					return
+				}
+			}
+			if r := sq.RollOverCount(); r != baseRoc {
+				c.Violate("rollover", "C07/rollover/sequential", "after %d sequential issues from %d RollOverCount is %d, expected %d", w, start, r, baseRoc)
+				bad = true
+			}
+		})
+		if bad || len(c.Viol) > 0 {
+			return
+		}
+		start += uint16(w)
+		c.Probe("warm-up-past-first-wrap")
+		c.Logf("warm-up: %d sequential issues, next value %d, %d wraps so far", w, start, baseRoc)
+	}
 	var ops []seqOp
 	proxy := &seqProxy{real: sq, c: c, sim: sim, ops: &ops}
 	c.Logf("config=%s threads=%d preempt=1/%d random=%v start=%d", c.Config, nth, den, random, start)
@@ -218,12 +250,12 @@ func runC07(c *core.Ctx) {
 			}
 		}
 	}
-	checkSeqHistory(c, ops, random, start, long)
+	checkSeqHistory(c, ops, random, start, long, baseRoc)
 }
 
 // checkSeqHistory applies the closed-form counter oracle to every history and porcupine to
 // short ones; a disagreement between the two is a harness error.
-func checkSeqHistory(c *core.Ctx, ops []seqOp, random bool, start uint16, long bool) {
+func checkSeqHistory(c *core.Ctx, ops []seqOp, random bool, start uint16, long bool, baseRoc uint64) {
 	var nexts, rocs []seqOp
 	for _, o := range ops {
 		if !o.ok {
@@ -305,7 +337,7 @@ func checkSeqHistory(c *core.Ctx, ops []seqOp, random bool, start uint16, long b
 	}
 	if !closedOK {
 		if !long && len(ops) <= 60 {
-			crossCheckPorcupine(c, ops, random, start, false)
+			crossCheckPorcupine(c, ops, random, start, false, baseRoc)
 		}
 		return
 	}
@@ -409,6 +441,7 @@ func checkSeqHistory(c *core.Ctx, ops []seqOp, random bool, start uint16, long b
 		if lo < hi {
 			c.Probe("rollover-read-concurrent-with-wrap")
 		}
+		lo, hi = lo+baseRoc, hi+baseRoc
 		if r.out < lo || r.out > hi {
 			fail("rollover", "C07/rollover/count-outside-linearizable-range", "RollOverCount returned %d; the zero-valued issues completed before / possibly before it allow only [%d,%d]", r.out, lo, hi)
 			break
@@ -423,7 +456,7 @@ func checkSeqHistory(c *core.Ctx, ops []seqOp, random bool, start uint16, long b
 		}
 	}
 	if !long && len(ops) <= 60 {
-		crossCheckPorcupine(c, ops, random, start, closedOK)
+		crossCheckPorcupine(c, ops, random, start, closedOK, baseRoc)
 	}
 }
 
@@ -432,9 +465,9 @@ type seqState struct {
 	roll uint64
 }
 
-func crossCheckPorcupine(c *core.Ctx, ops []seqOp, random bool, start uint16, closedOK bool) {
+func crossCheckPorcupine(c *core.Ctx, ops []seqOp, random bool, start uint16, closedOK bool, baseRoc uint64) {
 	model := porcupine.Model{
-		Init: func() interface{} { return seqState{last: start - 1} },
+		Init: func() interface{} { return seqState{last: start - 1, roll: baseRoc} },
 		Step: func(state, input, output interface{}) (bool, interface{}) {
 			st := state.(seqState)
 			if input.(int) == 0 {
